@@ -84,6 +84,7 @@ def assumption_sets(A, V, R, rng):
         m = s.model()
         full = {n: z3.is_true(m.eval(V[n], model_completion=True)) for n in nodes}
         sets.append(("complete-consistent", full))
+        sets.append(("ints", {n: int(full[n]) for n in nodes[: max(1, len(nodes) // 2)]}))  # documented form: dict of str:int
         for i in range(4):
             k = rng.randint(1, min(3, len(nodes)))
             pick = rng.sample(nodes, k)
